@@ -446,8 +446,8 @@ class KafkaClient(object):
             log.debug("%r: load_topic_partitions %r %s", self, topics, _ReprRequest(request))
             response = yield self._send_broker_unaware_request(correlationId, request)
 
-            brokers, topics = KafkaCodec.decode_metadata_response(response)
-            self._merge_topic_metadata(brokers, topics, fetched_all_topics=False)
+            brokers, topic_metadata = KafkaCodec.decode_metadata_response(response)
+            self._merge_topic_metadata(brokers, topic_metadata, fetched_all_topics=False)
 
             missing = []
             snapshot = {}
